@@ -2,9 +2,9 @@
 
 Entry points driven, each with chunked delivery (pieces inside headers and bodies, pauses between
 pieces, bodies larger than the pipe capacity):
-  server-stdio-args     JsonRPCServer.start_io(stdin=BufferedReader(pipe), stdout=...)   (_start_io_async)
+  server-stdio-args     JsonRPCServer.start_io(stdin=BufferedReader(pipe), stdout=...)
   server-stdio-default  start_io() with sys.stdin / sys.stdout patched to pipe-backed objects
-  server-sync           _start_io_sync(stdin=BufferedReader(pipe), stdout=...)
+  server-sync           the private sync variant of start_io (harness/priv.py) (stdin=BufferedReader(pipe), stdout=...)
   server-tcp            start_tcp on a real socket, a raw socket client sending the pieces
   client-stdio          JsonRPCClient.start_io(<python> servers/c02_emitter.py spec): the child writes the pieces
   client-tcp            JsonRPCClient.start_tcp against a listening socket that sends the pieces
@@ -13,6 +13,7 @@ payload; bodies are canonical JSON, so the payload is the body.  Expected: exact
 sent, once each, in order (Props/C02.v clause iii), and the entry point returns."""
 import asyncio, hashlib, io, json, logging, os, socket, subprocess, sys, tempfile, threading, time
 import core
+import priv
 
 EMITTER = os.path.join(core.ROOT, "harness", "servers", "c02_emitter.py")
 CLP = b"Content-Length: "
@@ -100,13 +101,14 @@ def run_server_stdio(mode, payloads, pieces, pause, bound=20.0):
     r, w = os.pipe()
     rd = os.fdopen(r, "rb")                       # a BufferedReader, as sys.stdin.buffer is
     res = {}
+    start_sync = priv.start_io_sync(srv)          # located here, outside the observed call
 
     def serve():
         try:
             if mode == "server-stdio-args":
                 srv.start_io(stdin=rd, stdout=_Sink())
             elif mode == "server-sync":
-                srv._start_io_sync(rd, _Sink())
+                start_sync(rd, _Sink())
             else:
                 srv.start_io()
             res["ret"] = "returns"
